@@ -170,13 +170,13 @@ pub fn events(r: &mut Rng, o: &Opts, last_time: f64, out: &mut Vec<String>) {
     let l = o.level;
     out.push("//Background and Video events".to_string());
     if r.chance(2, 3) {
-        out.push(format!("0,0,\"{}\",0,0", *r.pick(&["bg.jpg", "my bg.png", "a\\b.jpg", "BG.JPG"])));
+        out.push(format!("0,0,\"{}\",0,0", *r.pick(&["bg.jpg", "my bg.png", "a\\b.jpg", "BG.JPG", "clip.mp4", "Loop.AVI", "sb/intro.mov", "x.flv"])));
     }
     if r.chance(1, 4) {
         out.push(format!("Video,0,\"{}\"", *r.pick(&["v.mp4", "v.AVI", "image.jpg", "x.m4v"])));
     }
     if r.chance(1, 5) {
-        out.push("4,0,0,\"sprite.png\",320,240".to_string());
+        out.push(format!("4,0,0,\"{}\",320,240", *r.pick(&["sprite.png", "sprite.png", "sb/intro.avi", "s.MP4", "sp.wmv"])));
     }
     out.push("//Break Periods".to_string());
     let nb = r.range(0, 3);
